@@ -955,7 +955,19 @@ func Abs(env envs.Environment, num *types.XNumber) types.XValue {
 //
 // @function round(number [,places])
 func Round(env envs.Environment, num *types.XNumber, places int) types.XValue {
-	return types.NewXNumber(num.Native().Round(int32(places)))
+	return types.NewXNumber(roundToPlaces(num.Native(), places))
+}
+
+// rounds to the given number of places without doing work that is proportional to places when the
+// number has far fewer digits than that
+func roundToPlaces(d decimal.Decimal, places int) decimal.Decimal {
+	if places >= -int(d.Exponent()) {
+		return d // nothing to round away
+	}
+	if -places > d.NumDigits() {
+		return decimal.Zero // rounding to a power of ten that is more than ten times bigger than the number
+	}
+	return d.Round(int32(places))
 }
 
 // RoundUp rounds `number` up to the nearest integer value.
@@ -972,8 +984,16 @@ func Round(env envs.Environment, num *types.XNumber, places int) types.XValue {
 // @function round_up(number [,places])
 func RoundUp(env envs.Environment, num *types.XNumber, places int) types.XValue {
 	dec := num.Native()
-	if dec.Round(int32(places)).Equal(dec) {
+	if roundToPlaces(dec, places).Equal(dec) {
 		return num
+	}
+
+	if -places > dec.NumDigits() {
+		// rounding to a power of ten that is bigger than the number itself
+		if dec.Sign() > 0 {
+			return types.NewXNumber(decimal.New(1, int32(-places)))
+		}
+		return types.XNumberZero
 	}
 
 	halfPrecision := decimal.New(5, -int32(places)-1)
@@ -996,8 +1016,16 @@ func RoundUp(env envs.Environment, num *types.XNumber, places int) types.XValue 
 // @function round_down(number [,places])
 func RoundDown(env envs.Environment, num *types.XNumber, places int) types.XValue {
 	dec := num.Native()
-	if dec.Round(int32(places)).Equal(dec) {
+	if roundToPlaces(dec, places).Equal(dec) {
 		return num
+	}
+
+	if -places > dec.NumDigits() {
+		// rounding to a power of ten that is bigger than the number itself
+		if dec.Sign() < 0 {
+			return types.NewXNumber(decimal.New(-1, int32(-places)))
+		}
+		return types.XNumberZero
 	}
 
 	halfPrecision := decimal.New(5, -int32(places)-1)
